@@ -262,7 +262,6 @@ type lineRead struct {
 // and returns its error unchanged, nil only on the no-error edge, and on that
 // edge the text read - as it is, or with strings.Trim(text, "\r\n") applied.
 func (c *Ctx) readHelperInfo(h *ssa.Function) (*ssa.Call, bool, bool) {
-	a := c.A
 	if h == nil || !c.InModuleFn(h) || h.Package() != c.Client || h.Blocks == nil || (h.Object() != nil && h.Object().Exported()) {
 		return nil, false, false
 	}
@@ -281,7 +280,7 @@ func (c *Ctx) readHelperInfo(h *ssa.Function) (*ssa.Call, bool, bool) {
 			}
 		}
 	})
-	if n != 1 || !c.derivesFromField(rd.Call.Args[0], a.IO) {
+	if n != 1 || !c.derivesFromIO(rd.Call.Args[0]) {
 		return nil, false, false
 	}
 	isExt := func(v ssa.Value, idx int) bool {
